@@ -424,12 +424,17 @@ impl ParolLsGrammar {
             if let SymbolDefsType::Terminal = kind {
                 // Terminals show their %t_type definition if available
                 if let Some(ranges) = self.terminal_type.find_definitions(item) {
-                    debug_assert!(ranges.len() == 1);
-                    let _ = write!(
-                        value,
-                        "{}",
-                        to_markdown(extract_text_range(input, Rng(ranges[0])))
-                    );
+                    // A grammar may contain more than one %t_type declaration, the last one wins
+                    if let Some(range) = ranges
+                        .iter()
+                        .max_by_key(|r| (r.start.line, r.start.character))
+                    {
+                        let _ = write!(
+                            value,
+                            "{}",
+                            to_markdown(extract_text_range(input, Rng(*range)))
+                        );
+                    }
                 }
             } else {
                 value = format!("## {item}");
